@@ -275,6 +275,10 @@ func (c *ShadowStreamClientConn) writeToGeneric(w io.Writer) (n int64, err error
 }
 
 func (c *ShadowStreamClientConn) initRead(b []byte) (payloadLen int, err error) {
+	if c.ShadowStreamConn.readErr != nil {
+		return 0, c.ShadowStreamConn.readErr
+	}
+
 	urspLen := len(c.unsafeResponseStreamPrefix)
 	saltLen := len(c.cipherConfig.PSK)
 	fixedLengthHeaderStart := urspLen + saltLen
@@ -291,14 +295,20 @@ func (c *ShadowStreamClientConn) initRead(b []byte) (payloadLen int, err error) 
 	}
 
 	// Read sealed response header.
-	if _, err = c.readOnceOrFull(c.ShadowStreamConn.Conn, hb); err != nil {
+	if n, err := c.readOnceOrFull(c.ShadowStreamConn.Conn, hb); err != nil {
+		// Nothing consumed: the read may be retried.
+		if n > 0 {
+			c.ShadowStreamConn.readErr = err
+		}
 		return 0, err
 	}
 
 	// Check unsafe response stream prefix.
 	ursp := hb[:urspLen]
 	if !bytes.Equal(ursp, c.unsafeResponseStreamPrefix) {
-		return 0, &HeaderError[[]byte]{ErrUnsafeStreamPrefixMismatch, c.unsafeResponseStreamPrefix, ursp}
+		err = &HeaderError[[]byte]{ErrUnsafeStreamPrefixMismatch, c.unsafeResponseStreamPrefix, ursp}
+		c.ShadowStreamConn.readErr = err
+		return 0, err
 	}
 
 	// Derive key and create cipher.
@@ -367,7 +377,7 @@ type ShadowStreamConn struct {
 	readBuf    []byte // lazily allocated; length is readEnd
 	readStart  int
 	readCipher *ShadowStreamCipher
-	readErr    error // sticky: set by the first failed read other than io.EOF
+	readErr    error // sticky: set by the first read that failed in the middle of a chunk
 
 	writeBuf    []byte // non-nil; length is always 0
 	writeCipher *ShadowStreamCipher
@@ -469,48 +479,54 @@ func (c *ShadowStreamConn) read(b []byte) (n int, err error) {
 		panic(fmt.Sprintf("ss2022.ShadowStreamConn.read: buffer too small: %d < %d", cap(b), streamReadMinBufferSize))
 	}
 
-	// A failed read leaves the cipher out of step with the stream.
+	// A read that failed in the middle of a chunk leaves the cipher out of step with the stream.
 	// Later reads must not be given a chance to authenticate some other chunk in its place.
 	if c.readErr != nil {
 		return 0, c.readErr
 	}
-	n, err = c.readChunk(b)
-	if err != nil && err != io.EOF {
-		c.readErr = err
-	}
-	return n, err
-}
 
-func (c *ShadowStreamConn) readChunk(b []byte) (n int, err error) {
 	// Read sealed length chunk.
 	ciphertext := b[:2+tagSize]
-	if _, err = io.ReadFull(c.Conn, ciphertext); err != nil {
+	if nr, err := io.ReadFull(c.Conn, ciphertext); err != nil {
+		// Nothing consumed (end of stream, or a read deadline at a chunk boundary): the read may be retried.
+		if nr > 0 {
+			c.readErr = err
+		}
 		return 0, err
 	}
 
 	// Open sealed length chunk.
 	if _, err = c.readCipher.DecryptInPlace(ciphertext); err != nil {
-		return 0, err
+		return c.failRead(err)
 	}
 
 	// Validate length.
 	length := int(binary.BigEndian.Uint16(ciphertext))
 	if length == 0 {
-		return 0, ErrZeroLengthChunk
+		return c.failRead(ErrZeroLengthChunk)
 	}
 
 	// Read sealed payload chunk.
 	ciphertext = b[:length+tagSize]
 	if _, err = io.ReadFull(c.Conn, ciphertext); err != nil {
-		return 0, err
+		if err == io.EOF {
+			return 0, err
+		}
+		return c.failRead(err)
 	}
 
 	// Open sealed payload chunk.
 	if _, err = c.readCipher.DecryptInPlace(ciphertext); err != nil {
-		return 0, err
+		return c.failRead(err)
 	}
 
 	return length, nil
+}
+
+// failRead makes err the result of this and of every later read.
+func (c *ShadowStreamConn) failRead(err error) (int, error) {
+	c.readErr = err
+	return 0, err
 }
 
 // Write implements [netio.Conn.Write].
